@@ -160,6 +160,16 @@ fn constructors(rep: &mut Report, x: u64, cls: &str, r: &mut Rng) {
         Ok(p) => chk_p(rep, "PageTableEntry::addr", p, &ctx),
         Err(()) => {}
     }
+    // ... and the frame of an entry with arbitrary flag bits (0-11, 52-63) around a valid address
+    for raw in [x, x | 1, (x & 0x000f_ffff_ffff_f000) | 1 | (r.next() & 0xfff0_0000_0000_0ffe)] {
+        let pte: PageTableEntry = unsafe { core::mem::transmute::<u64, PageTableEntry>(raw) };
+        if let Ok(Ok(f)) = catch(|| pte.frame()) {
+            chk_p(rep, "PageTableEntry::frame", f.start_address(), &ctx);
+            if f.start_address().as_u64() != raw & 0x000f_ffff_ffff_f000 {
+                rep.violation("PageTableEntry::frame|not-the-address-bits-of-the-entry", J::obj(vec![("entry", J::hex(raw)), ("frame", J::hex(f.start_address().as_u64()))]));
+            }
+        }
+    }
     let raw: [u64; 2] = [x, r.next() ^ x.rotate_left(13)];
     let ent: Entry<HandlerFunc> = unsafe { core::mem::transmute::<[u64; 2], Entry<HandlerFunc>>(raw) };
     match catch(|| ent.handler_addr()) {
@@ -227,19 +237,19 @@ fn page_ops<S: PageSize>(rep: &mut Report, r: &mut Rng, regs: &mut Regs, tag: &s
         }
         4 => {
             name = "Page+=u64";
-            catch(|| {
+            {
                 let mut p = Page::<S>::containing_address(a);
-                p += n;
-                Some(p.start_address())
-            })
+                let _ = catch(|| p += n);
+                Ok::<_, ()>(Some(p.start_address()))
+            }
         }
         5 => {
             name = "Page-=u64";
-            catch(|| {
+            {
                 let mut p = Page::<S>::containing_address(a);
-                p -= n;
-                Some(p.start_address())
-            })
+                let _ = catch(|| p -= n);
+                Ok::<_, ()>(Some(p.start_address()))
+            }
         }
         6 => {
             name = "Page::forward_checked";
@@ -317,19 +327,19 @@ fn frame_ops<S: PageSize>(rep: &mut Report, r: &mut Rng, regs: &mut Regs, tag: &
         }
         4 => {
             name = "PhysFrame+=u64";
-            catch(|| {
+            {
                 let mut p = PhysFrame::<S>::containing_address(a);
-                p += n;
-                Some(p.start_address())
-            })
+                let _ = catch(|| p += n);
+                Ok::<_, ()>(Some(p.start_address()))
+            }
         }
         5 => {
             name = "PhysFrame-=u64";
-            catch(|| {
+            {
                 let mut p = PhysFrame::<S>::containing_address(a);
-                p -= n;
-                Some(p.start_address())
-            })
+                let _ = catch(|| p -= n);
+                Ok::<_, ()>(Some(p.start_address()))
+            }
         }
         _ => {
             name = "PhysFrameRangeInclusive::next";
@@ -408,19 +418,21 @@ fn program(rep: &mut Report, r: &mut Rng, len: usize) {
                     }
                     2 => {
                         name = "VirtAddr+=u64";
-                        catch(|| {
+                        {
+                            // the operand is looked at after the call whether it returned or panicked: it is still an address
                             let mut b = a;
-                            b += n;
-                            Some(b)
-                        })
+                            let _ = catch(|| b += n);
+                            Ok::<_, ()>(Some(b))
+                        }
                     }
                     3 => {
                         name = "VirtAddr-=u64";
-                        catch(|| {
+                        {
+                            // the operand is looked at after the call whether it returned or panicked: it is still an address
                             let mut b = a;
-                            b -= n;
-                            Some(b)
-                        })
+                            let _ = catch(|| b -= n);
+                            Ok::<_, ()>(Some(b))
+                        }
                     }
                     4 => {
                         name = "VirtAddr::align_up";
@@ -496,19 +508,21 @@ fn program(rep: &mut Report, r: &mut Rng, len: usize) {
                     }
                     2 => {
                         name = "PhysAddr+=u64";
-                        catch(|| {
+                        {
+                            // the operand is looked at after the call whether it returned or panicked: it is still an address
                             let mut b = a;
-                            b += n;
-                            Some(b)
-                        })
+                            let _ = catch(|| b += n);
+                            Ok::<_, ()>(Some(b))
+                        }
                     }
                     3 => {
                         name = "PhysAddr-=u64";
-                        catch(|| {
+                        {
+                            // the operand is looked at after the call whether it returned or panicked: it is still an address
                             let mut b = a;
-                            b -= n;
-                            Some(b)
-                        })
+                            let _ = catch(|| b -= n);
+                            Ok::<_, ()>(Some(b))
+                        }
                     }
                     4 => {
                         name = "PhysAddr::align_up";
